@@ -129,6 +129,15 @@ func (rs *regScript) issue(p *Peer, hot *LFeat) *regIssued {
 		desc = "unknown-client"
 	}
 	ri.op = RegOp{Kind: kind, Peer: p.Name, Client: fullAddr(ca, p.Addr), Server: fullAddr(server, rs.pr.L.Addr), Desc: desc}
+	// the device part of the server address may be absent as well (it then means the recipient)
+	if w.T.Bool(1, 5, "omit-server-device") {
+		sc := *server
+		sc.Device = nil
+		server = &sc
+		ri.op.Desc += "+server-device-omitted"
+		desc = ri.op.Desc
+		w.Probe("reg-server-device-omitted")
+	}
 	if kind == add {
 		ftc := ft
 		ri.op.Valid = regStaticValid(rs.pr.L, p, ca, server, &ftc)
